@@ -1,9 +1,1884 @@
-//! C04 — not implemented yet.
-use crate::util::{Args, Out};
-use serde_json::{Value, json};
+//! C04 — front end and compile entry points are total on arbitrary text.
+//!
+//! Every text is pushed through the real front end, phase by phase, in a supervised child
+//! process on a thread with a 2 MiB stack: `parser::tokenize` → `preparse` → `parse_cst` → `parse_to_expr` →
+//! `mirgen::typecheck_with_module_info` (the calls the language server makes), then
+//! `mimium_language_server::analysis::analyze_source` itself, then the two on-save entry
+//! points `Context::emit_bytecode` and `Context::emit_wasm` on compiler contexts built by
+//! `ExecContext` (scheduler plugin; the VM context also carries the audio-driver plugin).
+//!
+//! Refuting events (DESIGN.md §3 C04):
+//!  * a panic in any front-end phase or in `analyze_source`, on any text;
+//!  * a panic in `emit_bytecode` / `emit_wasm` on a text for which the front end reported at
+//!    least one diagnostic (a panic on a text without diagnostics is C03's business and is
+//!    only counted);
+//!  * a diagnostic label (own file) with `start > end`, `end > len`, or off a char boundary;
+//!  * process death pinned to one text and phase: stack overflow (fault at the guard page; class
+//!    "unbounded-recursion" or "fits-in-256MiB" from a second run on a big stack), other fatal
+//!    signals, runaway allocation (dies at the address-space limit and again, bigger, at twice
+//!    the limit);
+//!  * a text that stays in one phase for 30 s in its batch and again for 120 s alone (hang).
+//!
+//! Workload: exhaustive lexeme sequences (blocks of the enumeration are one case), nesting
+//! ladders up to the stated bound of 64 levels, every/sampled char-boundary prefix and suffix
+//! of the corpus files, token-level mutations, bracket scrambles and Unicode splices.
 
-pub fn meta(_args: &Args) -> Value {
-    json!({"level": "exploration", "rule": "not implemented", "floor": {"quick": 1000000, "thorough": 1000000}})
+use super::drive;
+use crate::util::{Args, Out, Panic, Rng, catch, fp};
+use mimium_audiodriver::backends::local_buffer::LocalBufferDriver;
+use mimium_audiodriver::driver::Driver;
+use mimium_lang::compiler::{mirgen, parser};
+use mimium_lang::interner::{Symbol, TypeNodeId};
+use mimium_lang::plugin::Plugin;
+use mimium_lang::utils::error::ReportableError;
+use mimium_lang::{Config, ExecContext};
+use serde::{Deserialize, Serialize};
+use serde_json::{Value, json};
+use std::collections::BTreeMap;
+use std::path::{Path, PathBuf};
+
+/// the "stated bound" of the property for bracket/construct nesting
+const NEST_BOUND: usize = 64;
+/// VM instruction budget for stage-0 (macro) execution inside the compile entry points
+const STAGE0_STEPS: u64 = 20_000_000;
+
+// ------------------------------------------------------------------ cases
+
+#[derive(Clone, Debug, Serialize, Deserialize)]
+pub enum Case {
+    /// Block of an exhaustive enumeration: the sequences number `first .. first+count` (base-n
+    /// digits, most significant first) of exactly `len` lexemes of alphabet `alpha`, joined with `joiner`.
+    Seq { alpha: String, len: usize, first: u64, count: u64, joiner: String },
+    /// Explicit texts (derived from one corpus file), compiled as if saved next to `path`.
+    Texts { origin: String, path: String, texts: Vec<String> },
+    /// One explicit text.
+    One { origin: String, path: String, text: String },
+    /// Informational: how far beyond the stated nesting bound the ladder `kind` survives
+    /// (each depth runs in a child process; never a violation).
+    Margin { kind: String, wrapped: bool },
 }
-pub fn run(_args: &Args, _out: &mut Out) {}
-pub fn replay(_args: &Args, _out: &mut Out, _case: &Value) {}
+
+// ------------------------------------------------------------------ alphabets
+
+/// One or more lexemes per `TokenKind` the tokenizer can produce, plus error characters,
+/// trivia and unterminated openers.
+const FULL: &[&str] = &[
+    // identifiers / literals
+    "x", "dsp", "_", "0", "42", "1.5", "\"s\"",
+    // type keywords
+    "float", "int", "string", "struct",
+    // operators
+    "+", "-", "*", "/", "==", "!=", "<", "<=", ">", ">=", "%", "^", "@", "&&", "||", "|>", "||>", "!",
+    // special literals
+    "self", "now", "samplerate",
+    // punctuation
+    ",", ".", "..", ":", "::", ";",
+    // keywords
+    "let", "letrec", "=", "fn", "macro", "->", "<-", "=>", "if", "else", "match",
+    "include", "#", "stage", "main", "mod", "use", "pub", "type", "alias", "rec",
+    // brackets
+    "(", ")", "[", "]", "{", "}", "|", "`", "$",
+    // trivia
+    "\n", " ", "\t", "\r\n", "//c\n", "/*c*/",
+    // error characters, unterminated openers, non-ASCII
+    "\u{a7}", "~", "\\", "?", "'", "&", "\"", "/*", "\u{0}", "\u{feff}", "\u{e9}", "\u{65e5}\u{672c}", "\u{301}", "\u{1d4b3}",
+];
+
+/// 14 structural tokens (length <= 5 in thorough).
+const S14: &[&str] = &["(", ")", "{", "}", "[", "]", "|", ",", "=", "fn", "let", "if", "x", "1"];
+
+/// 24 structural tokens (length <= 4 in thorough).
+const S24: &[&str] = &[
+    "(", ")", "{", "}", "[", "]", "|", ",", "=", "fn", "let", "if", "else", "match", "=>", "`", "$", "!", ".", ":", "->",
+    "x", "1", "::",
+];
+
+fn alphabet(name: &str) -> Option<&'static [&'static str]> {
+    match name {
+        "full" => Some(FULL),
+        "s14" => Some(S14),
+        "s24" => Some(S24),
+        _ => None,
+    }
+}
+
+fn seq_text(alpha: &[&str], len: usize, mut i: u64, joiner: &str) -> String {
+    let n = alpha.len() as u64;
+    let mut digits = vec![0usize; len];
+    for d in digits.iter_mut().rev() {
+        *d = (i % n) as usize;
+        i /= n;
+    }
+    let mut s = String::new();
+    for (k, d) in digits.iter().enumerate() {
+        if k > 0 {
+            s.push_str(joiner);
+        }
+        s.push_str(alpha[*d]);
+    }
+    s
+}
+
+// ------------------------------------------------------------------ nesting ladders
+
+fn rep(s: &str, n: usize) -> String {
+    s.repeat(n)
+}
+
+/// (kind, is an expression that can be wrapped into `fn dsp(){ … }`)
+const LADDERS: &[(&str, bool)] = &[
+    ("paren", true),
+    ("paren-open", true),
+    ("paren-close", true),
+    ("array", true),
+    ("array-open", true),
+    ("array-close", true),
+    ("block", true),
+    ("block-open", true),
+    ("block-close", true),
+    ("tuple", true),
+    ("record", true),
+    ("record-open", true),
+    ("call", true),
+    ("call-open", true),
+    ("call-chain", true),
+    ("if", true),
+    ("if-open", true),
+    ("else-if", true),
+    ("lambda", true),
+    ("bar-open", true),
+    ("minus", true),
+    ("not", true),
+    ("plus-chain", true),
+    ("pow-chain", true),
+    ("pipe-chain", true),
+    ("assign-chain", true),
+    ("backquote", true),
+    ("quote-escape", true),
+    ("escape", true),
+    ("quote-block", true),
+    ("macro-call", true),
+    ("projection", true),
+    ("field", true),
+    ("index", true),
+    ("qualified", true),
+    ("match", true),
+    ("match-open", true),
+    ("type-paren", false),
+    ("type-array", false),
+    ("type-fn", false),
+    ("type-code", false),
+    ("type-record", false),
+    ("type-union", false),
+    ("pattern", false),
+    ("lambda-pattern", true),
+    ("let-chain", false),
+    ("fn-chain", false),
+    ("fn-nest", false),
+    ("fn-open", false),
+    ("mod", false),
+    ("mod-open", false),
+    ("use-path", false),
+    ("stage", false),
+    ("comment-open", false),
+    ("string-open", false),
+    ("params", false),
+    ("args", true),
+];
+
+fn ladder(kind: &str, d: usize) -> Option<String> {
+    Some(match kind {
+        "paren" => format!("{}1{}", rep("(", d), rep(")", d)),
+        "paren-open" => format!("{}1", rep("(", d)),
+        "paren-close" => format!("1{}", rep(")", d)),
+        "array" => format!("{}1{}", rep("[", d), rep("]", d)),
+        "array-open" => rep("[", d),
+        "array-close" => format!("1{}", rep("]", d)),
+        "block" => format!("{}1{}", rep("{", d), rep("}", d)),
+        "block-open" => rep("{", d),
+        "block-close" => format!("1{}", rep("}", d)),
+        "tuple" => format!("{}2{}", rep("(1,", d), rep(")", d)),
+        "record" => format!("{}1{}", rep("{a = ", d), rep("}", d)),
+        "record-open" => rep("{a = ", d),
+        "call" => format!("{}1{}", rep("f(", d), rep(")", d)),
+        "call-open" => rep("f(", d),
+        "call-chain" => format!("f{}", rep("()", d)),
+        "if" => format!("{}1{}", rep("if (1) { ", d), rep(" } else { 0 }", d)),
+        "if-open" => rep("if (1) { ", d),
+        "else-if" => format!("{}{{ 0 }}", rep("if (1) { 1 } else ", d)),
+        "lambda" => format!("{}x", rep("|x| ", d)),
+        "bar-open" => rep("|", d),
+        "minus" => format!("{}1", rep("-", d)),
+        "not" => format!("{}x", rep("!", d)),
+        "plus-chain" => format!("{}1", rep("1 + ", d)),
+        "pow-chain" => format!("{}1", rep("1 ^ ", d)),
+        "pipe-chain" => format!("1{}", rep(" |> f", d)),
+        "assign-chain" => format!("{}1", rep("x = ", d)),
+        "backquote" => format!("{}1", rep("`", d)),
+        "quote-escape" => format!("{}1", rep("`$", d)),
+        "escape" => format!("{}x", rep("$", d)),
+        "quote-block" => format!("{}1{}", rep("`{", d), rep("}", d)),
+        "macro-call" => format!("{}1{}", rep("f!(", d), rep(")", d)),
+        "projection" => format!("x{}", rep(".0", d)),
+        "field" => format!("x{}", rep(".a", d)),
+        "index" => format!("x{}", rep("[0]", d)),
+        "qualified" => format!("{}b", rep("a::", d)),
+        "match" => format!("{}1{}", rep("match x { 0 => ", d), rep(", _ => 0 }", d)),
+        "match-open" => rep("match x { 0 => ", d),
+        "type-paren" => format!("let x:{}float{} = 1", rep("(", d), rep(")", d)),
+        "type-array" => format!("let x:{}float{} = 1", rep("[", d), rep("]", d)),
+        "type-fn" => format!("let f:{}float = 1", rep("(float)->", d)),
+        "type-code" => format!("let x:{}float = 1", rep("`", d)),
+        "type-record" => format!("let x:{}float{} = 1", rep("{a:", d), rep("}", d)),
+        "type-union" => format!("let x:float{} = 1", rep(" | float", d)),
+        "pattern" => format!("let {}a{} = 1", rep("(", d), rep(",b)", d)),
+        "lambda-pattern" => format!("|{}a{}| a", rep("(", d), rep(",b)", d)),
+        "let-chain" => {
+            let mut s = String::new();
+            for i in 0..d {
+                s.push_str(&format!("let x{i} = {i}\n"));
+            }
+            s.push_str("x0");
+            s
+        }
+        "fn-chain" => {
+            let mut s = String::new();
+            for i in 0..d {
+                s.push_str(&format!("fn f{i}(x){{ x + {i} }}\n"));
+            }
+            s
+        }
+        "fn-nest" => format!("{}1{}", rep("fn f(){ ", d), rep(" }", d)),
+        "fn-open" => rep("fn f(){ ", d),
+        "mod" => format!("{}fn f(){{ 1 }}{}", rep("mod m { ", d), rep(" }", d)),
+        "mod-open" => rep("mod m { ", d),
+        "use-path" => format!("use a{}", rep("::a", d)),
+        "stage" => format!("{}fn dsp(){{ 0 }}", rep("#stage(main)\n", d)),
+        "comment-open" => rep("/*", d),
+        "string-open" => rep("\"", d),
+        "params" => format!("fn f({}){{ 0 }}", (0..d).map(|i| format!("a{i}")).collect::<Vec<_>>().join(",")),
+        "args" => format!("f({})", (0..d).map(|i| format!("{i}")).collect::<Vec<_>>().join(",")),
+        _ => return None,
+    })
+}
+
+fn wrap_dsp(expr: &str) -> String {
+    format!("fn dsp(){{\n  {expr}\n}}\n")
+}
+
+const DEPTHS: &[usize] = &[1, 2, 3, 4, 6, 8, 12, 16, 24, 32, 48, NEST_BOUND];
+
+fn ladder_cases() -> Vec<(String, usize, bool)> {
+    let mut v = vec![];
+    for (k, wrappable) in LADDERS {
+        for d in DEPTHS {
+            v.push((k.to_string(), *d, false));
+            if *wrappable {
+                v.push((k.to_string(), *d, true));
+            }
+        }
+    }
+    v
+}
+
+// ------------------------------------------------------------------ corpus
+
+/// Measured cost (ms, one full pass of all monitored entry points over the complete file,
+/// release build) of the corpus files that are expensive because of what they import; only a
+/// planning heuristic that decides how densely a file is cut/mutated. Files not listed
+/// cost 4 ms + 10 us per byte.
+const COST_MS: &[(&str, u32)] = &[
+    ("examples/uzulang.mmm", 2900), ("examples/rain.mmm", 2900), ("examples/fmpiano.mmm", 2200),
+    ("examples/jcrev.mmm", 1900), ("examples/robot.mmm", 1500), ("lib/reverb.mmm", 1500),
+    ("examples/livecoding_demo.mmm", 1400),
+    ("crates/lib/mimium-test/tests/mmm/fdn_rev_default_record_regression.mmm", 1200),
+    ("examples/compressor.mmm", 1000), ("crates/lib/mimium-test/tests/mmm/scheduler_reactive_imported.mmm", 820),
+    ("examples/biquad.mmm", 770), ("examples/reactive_f.mmm", 760),
+    ("crates/lib/mimium-test/tests/mmm/mininotation.mmm", 610),
+    ("crates/lib/mimium-test/tests/mmm/mininotation_alternate_grouping.mmm", 570),
+    ("lib/modulation.mmm", 530), ("lib/dynamics.mmm", 520), ("lib/mininotation.mmm", 340),
+    ("crates/lib/mimium-test/tests/mmm/wasm_record_default_adsr.mmm", 330), ("lib/parser.mmm", 300),
+    ("lib/sequencer.mmm", 290), ("crates/lib/mimium-test/tests/mmm/parser_combinators.mmm", 290),
+    ("examples/sequencer.mmm", 1100),
+    ("crates/lib/mimium-test/tests/mmm/pattern_run_pure_record_array_regression.mmm", 280),
+    ("lib/delay.mmm", 190), ("examples/supersaw.mmm", 190), ("examples/scale.mmm", 160), ("lib/pattern.mmm", 160),
+    ("examples/windmodel.mmm", 150), ("examples/noise.mmm", 120), ("examples/subtract_synth.mmm", 110),
+    ("lib/noise.mmm", 90), ("examples/reactive_sequencer.mmm", 90),
+    ("crates/lib/mimium-test/tests/mmm/imported_core_generic_nested_array.mmm", 80),
+    ("examples/cascadeosc_macro.mmm", 80),
+    ("crates/lib/mimium-test/tests/mmm/macro_quote_imported_global_function.mmm", 80),
+    ("crates/lib/mimium-test/tests/mmm/module_wildcard_local_shadowing.mmm", 70),
+    ("lib/filter.mmm", 50), ("examples/cascadeosc.mmm", 50), ("lib/composition.mmm", 50), ("lib/core.mmm", 40),
+];
+
+#[derive(Clone)]
+struct CorpusFile {
+    /// estimated cost of one full check of the complete file, ms
+    cost_ms: u64,
+    /// path relative to the repository
+    rel: String,
+    /// virtual sibling path the mutated texts are "saved" as
+    vpath: String,
+    text: String,
+}
+
+fn load_corpus(repo: &str) -> Vec<CorpusFile> {
+    let dirs = ["lib", "examples", "crates/lib/mimium-test/tests/mmm", "crates/bin/mimium-fmt/tests"];
+    let mut out = vec![];
+    for d in dirs {
+        let dir = Path::new(repo).join(d);
+        let Ok(rd) = std::fs::read_dir(&dir) else { continue };
+        let mut names: Vec<PathBuf> =
+            rd.filter_map(|e| e.ok()).map(|e| e.path()).filter(|p| p.extension().is_some_and(|x| x == "mmm")).collect();
+        names.sort();
+        for p in names {
+            let Ok(text) = std::fs::read_to_string(&p) else { continue };
+            let name = p.file_name().unwrap().to_string_lossy().to_string();
+            let rel = format!("{d}/{name}");
+            let cost_ms = COST_MS
+                .iter()
+                .find(|(n, _)| *n == rel)
+                .map(|(_, c)| *c as u64)
+                .unwrap_or(4 + text.len() as u64 / 100);
+            out.push(CorpusFile {
+                cost_ms,
+                rel: format!("{d}/{name}"),
+                vpath: dir.join(format!("c04__{name}")).to_string_lossy().to_string(),
+                text,
+            });
+        }
+    }
+    out
+}
+
+fn default_path(repo: &str) -> String {
+    Path::new(repo).join("examples").join("c04__text.mmm").to_string_lossy().to_string()
+}
+
+/// Crude own splitter (not the tokenizer under test): identifier/number runs, whitespace
+/// runs, string literals, line comments, single other characters.
+fn pieces(text: &str) -> Vec<&str> {
+    let b: Vec<(usize, char)> = text.char_indices().collect();
+    let mut res = vec![];
+    let mut i = 0;
+    let at = |k: usize| if k < b.len() { b[k].0 } else { text.len() };
+    while i < b.len() {
+        let c = b[i].1;
+        let start = i;
+        if c.is_alphanumeric() || c == '_' {
+            while i < b.len() && (b[i].1.is_alphanumeric() || b[i].1 == '_') {
+                i += 1;
+            }
+        } else if c.is_whitespace() {
+            while i < b.len() && b[i].1.is_whitespace() {
+                i += 1;
+            }
+        } else if c == '"' {
+            i += 1;
+            while i < b.len() && b[i].1 != '"' {
+                i += 1;
+            }
+            i = (i + 1).min(b.len());
+        } else if c == '/' && i + 1 < b.len() && b[i + 1].1 == '/' {
+            while i < b.len() && b[i].1 != '\n' {
+                i += 1;
+            }
+        } else {
+            i += 1;
+        }
+        res.push(&text[at(start)..at(i)]);
+    }
+    res
+}
+
+const BRACKETS: &[&str] = &["(", ")", "[", "]", "{", "}", "|", "`", "$"];
+const OPS: &[&str] = &["+", "-", "*", "/", "==", "!=", "<", "<=", ">", ">=", "%", "^", "@", "&&", "||", "|>", "||>", "=", "->", "=>", "<-", ".", "..", ":", "::", ",", "!"];
+const CONSTS: &[&str] = &["0", "1", "1.0", "0.5", "1e3", "1.", ".5", "00", "9999999999999999999999", "1.0.0", "\"\"", "\"a\"", "self", "now", "samplerate", "_", "x", "dsp"];
+const UNI: &[&str] = &[
+    "\u{e9}", "\u{65e5}\u{672c}\u{8a9e}", "\u{301}", "\u{202e}", "\u{0}", "\u{feff}", "\r\n", "\r", "\u{1d4b3}", "\u{200b}", "\u{a0}",
+    "\u{2028}", "\u{1f3b5}", "\u{df}", "\u{3a9}", "\u{663}", "\u{ff11}", "\u{a7}", "\u{7f}", "\u{85}", "\u{fffd}", "\u{10ffff}",
+    "e\u{301}", "\u{1f468}\u{200d}\u{1f469}", "\u{2212}", "\u{201c}s\u{201d}",
+];
+
+fn is_ws(p: &str) -> bool {
+    p.chars().all(|c| c.is_whitespace())
+}
+
+/// One token-level mutation on a piece list.
+fn mutate_tokens(rng: &mut Rng, ps: &mut Vec<String>) -> &'static str {
+    if ps.is_empty() {
+        ps.push("x".into());
+        return "insert";
+    }
+    let n = ps.len();
+    let non_ws: Vec<usize> = (0..n).filter(|i| !is_ws(&ps[*i])).collect();
+    let pick_nw = |rng: &mut Rng| if non_ws.is_empty() { rng.below(n) } else { *rng.pick(&non_ws) };
+    match rng.below(14) {
+        0 => {
+            let i = pick_nw(rng);
+            ps.remove(i);
+            "delete-token"
+        }
+        1 => {
+            let i = pick_nw(rng);
+            let t = ps[i].clone();
+            ps.insert(i, t);
+            "duplicate-token"
+        }
+        2 => {
+            if non_ws.len() >= 2 {
+                let k = rng.below(non_ws.len() - 1);
+                ps.swap(non_ws[k], non_ws[k + 1]);
+            }
+            "swap-adjacent"
+        }
+        3 => {
+            let (i, j) = (pick_nw(rng), pick_nw(rng));
+            ps.swap(i, j);
+            "swap-random"
+        }
+        4 => {
+            let i = pick_nw(rng);
+            ps[i] = rng.pick(FULL).to_string();
+            "replace-by-lexeme"
+        }
+        5 => {
+            let i = rng.below(n + 1);
+            ps.insert(i, rng.pick(FULL).to_string());
+            "insert-lexeme"
+        }
+        6 => {
+            let br: Vec<usize> = (0..n).filter(|i| BRACKETS.contains(&ps[*i].as_str())).collect();
+            if !br.is_empty() {
+                let k = 1 + rng.below(3.min(br.len()));
+                for _ in 0..k {
+                    let i = *rng.pick(&br);
+                    ps[i] = rng.pick(BRACKETS).to_string();
+                }
+            }
+            "bracket-scramble"
+        }
+        7 => {
+            let i = rng.below(n);
+            let l = 1 + rng.below(12.min(n - i));
+            ps.drain(i..i + l);
+            "delete-range"
+        }
+        8 => {
+            let i = rng.below(n);
+            let l = 1 + rng.below(12.min(n - i));
+            let seg: Vec<String> = ps[i..i + l].to_vec();
+            let at = rng.below(ps.len() + 1);
+            for (k, s) in seg.into_iter().enumerate() {
+                ps.insert(at + k, s);
+            }
+            "copy-range"
+        }
+        9 => {
+            let ops: Vec<usize> = (0..n).filter(|i| OPS.contains(&ps[*i].as_str())).collect();
+            if !ops.is_empty() {
+                let i = *rng.pick(&ops);
+                ps[i] = rng.pick(OPS).to_string();
+            }
+            "operator-substitution"
+        }
+        10 => {
+            let cs: Vec<usize> =
+                (0..n).filter(|i| ps[*i].chars().next().is_some_and(|c| c.is_ascii_digit() || c == '"')).collect();
+            let i = if cs.is_empty() { pick_nw(rng) } else { *rng.pick(&cs) };
+            ps[i] = rng.pick(CONSTS).to_string();
+            "constant-substitution"
+        }
+        11 => {
+            // remove one bracket (unbalance)
+            let br: Vec<usize> = (0..n).filter(|i| BRACKETS.contains(&ps[*i].as_str())).collect();
+            if !br.is_empty() {
+                let i = *rng.pick(&br);
+                ps.remove(i);
+            }
+            "drop-bracket"
+        }
+        12 => {
+            // glue: remove a whitespace piece (tokens merge) or turn it into a newline
+            let ws: Vec<usize> = (0..n).filter(|i| is_ws(&ps[*i])).collect();
+            if !ws.is_empty() {
+                let i = *rng.pick(&ws);
+                if rng.chance(1, 2) {
+                    ps.remove(i);
+                } else {
+                    ps[i] = if ps[i].contains('\n') { " ".into() } else { "\n".into() };
+                }
+            }
+            "whitespace-change"
+        }
+        _ => {
+            let ids: Vec<usize> =
+                (0..n).filter(|i| ps[*i].chars().next().is_some_and(|c| c.is_alphabetic() || c == '_')).collect();
+            if !ids.is_empty() {
+                let i = *rng.pick(&ids);
+                let kw = ["fn", "let", "if", "else", "match", "self", "mod", "use", "pub", "type", "macro", "letrec", "include", "stage", "main", "float", "_", "rec", "alias"];
+                ps[i] = rng.pick(&kw).to_string();
+            }
+            "ident-to-keyword"
+        }
+    }
+}
+
+fn unicode_splice(rng: &mut Rng, text: &str) -> (String, &'static str) {
+    let bounds: Vec<usize> = text.char_indices().map(|(i, _)| i).chain(std::iter::once(text.len())).collect();
+    let mut s = text.to_string();
+    match rng.below(4) {
+        0 | 1 => {
+            let k = 1 + rng.below(3);
+            let mut pos: Vec<usize> = (0..k).map(|_| *rng.pick(&bounds)).collect();
+            pos.sort();
+            for p in pos.into_iter().rev() {
+                s.insert_str(p, *rng.pick(UNI));
+            }
+            (s, "unicode-insert")
+        }
+        2 => {
+            // replace one char by a multi-byte one
+            if bounds.len() >= 2 {
+                let k = rng.below(bounds.len() - 1);
+                s.replace_range(bounds[k]..bounds[k + 1], *rng.pick(UNI));
+            }
+            (s, "unicode-replace-char")
+        }
+        _ => {
+            // rename one identifier to a non-ASCII one everywhere
+            let ps = pieces(text);
+            let ids: Vec<&str> = ps.iter().copied().filter(|p| p.chars().next().is_some_and(|c| c.is_alphabetic())).collect();
+            if ids.is_empty() {
+                return (s, "unicode-rename");
+            }
+            let target = *rng.pick(&ids);
+            let new = *rng.pick(&["\u{e9}t\u{e9}", "\u{65e5}\u{672c}", "\u{3a9}1", "x\u{301}", "\u{1d4b3}", "na\u{ef}ve"]);
+            let out: String = ps.iter().map(|p| if *p == target { new } else { *p }).collect();
+            (out, "unicode-rename")
+        }
+    }
+}
+
+// ------------------------------------------------------------------ the monitor
+
+struct Env {
+    repo: String,
+    /// compiler contexts per "saved as" path: (vm, wasm, builtin types)
+    ctxs: BTreeMap<String, (ExecContext, ExecContext, Vec<(Symbol, TypeNodeId)>)>,
+}
+
+fn build_ctx(wasm: bool, path: &str) -> ExecContext {
+    let plugins: Vec<Box<dyn Plugin>> = if wasm {
+        vec![]
+    } else {
+        let driver = LocalBufferDriver::new(0);
+        vec![Box::new(driver.get_as_plugin())]
+    };
+    let mut ctx = ExecContext::new(plugins.into_iter(), Some(PathBuf::from(path)), Config::default());
+    ctx.add_system_plugin(mimium_scheduler::get_default_scheduler_plugin());
+    ctx.prepare_compiler();
+    ctx
+}
+
+impl Env {
+    fn new(repo: &str) -> Env {
+        Env { repo: repo.to_string(), ctxs: BTreeMap::new() }
+    }
+    fn ensure(&mut self, path: &str) {
+        if !self.ctxs.contains_key(path) {
+            if self.ctxs.len() > 64 {
+                self.ctxs.clear();
+            }
+            let vm = build_ctx(false, path);
+            let wasm = build_ctx(true, path);
+            let builtins = vm.get_compiler().unwrap().get_ext_typeinfos();
+            self.ctxs.insert(path.to_string(), (vm, wasm, builtins));
+        }
+    }
+}
+
+/// What was observed on one text.
+#[derive(Default, Debug)]
+struct Obs {
+    diagnostics: usize,
+    tree_nonempty: bool,
+    /// (signature, detail) of refuting events
+    bad: Vec<(String, String)>,
+}
+
+fn norm_msg(m: &str) -> String {
+    let mut out = String::new();
+    let mut in_q = false;
+    let mut last_digit = false;
+    for c in m.chars() {
+        if c == '"' {
+            in_q = !in_q;
+            if in_q {
+                out.push_str("\"..\"");
+            }
+            continue;
+        }
+        if in_q {
+            continue;
+        }
+        if c.is_ascii_digit() {
+            if !last_digit {
+                out.push('N');
+            }
+            last_digit = true;
+            continue;
+        }
+        last_digit = false;
+        out.push(if c == '\n' { ' ' } else { c });
+        if out.len() >= 56 {
+            break;
+        }
+    }
+    out
+}
+
+/// Signature of a panic: `panic@<file>: <head of the normalised message>`. The head is the
+/// run of leading plain words (letters, optionally followed by `:`/`.`/`,`; words in
+/// backquotes are kept, words in single quotes become `'..'`), at most 8 — it stops at the
+/// first word that carries payload (types, names, numbers in brackets…), so that text taken
+/// from the input never leaks into the signature. "value <kind> … not found" keeps the kind only.
+fn panic_sig(p: &Panic) -> String {
+    let s = p.sig();
+    let (head, msg) = match s.find(": ") {
+        Some(i) => (&s[..i], &s[i + 2..]),
+        None => (s.as_str(), ""),
+    };
+    let mut words: Vec<String> = vec![];
+    for w in msg.split_whitespace() {
+        if words.len() >= 8 {
+            break;
+        }
+        let core = w.trim_end_matches([':', '.', ',']);
+        let plain = !core.is_empty() && core.chars().all(|c| c.is_ascii_alphabetic() || c == '-');
+        let backq = core.len() >= 2 && core.starts_with('`') && core.ends_with('`');
+        let singleq = core.len() >= 2 && core.starts_with('\'') && core.ends_with('\'');
+        if plain || backq {
+            words.push(w.to_string());
+        } else if singleq {
+            words.push("'..'".to_string());
+        } else {
+            break;
+        }
+    }
+    if words.first().is_some_and(|w| w == "value") && words.len() >= 2 {
+        words.truncate(2);
+        words.push("<..> not found".into());
+    }
+    format!("{head}: {}", words.join(" "))
+}
+
+/// Panics of the compile entry points can only be reached by texts whose diagnostics are all
+/// syntax errors (type errors stop `compile_with_module_info` before MIR generation): they
+/// all are "MIR generation / code generation / stage-0 execution was run on a tree with
+/// error nodes". The class tag is the source file that raised the panic; the individual
+/// messages are listed in the evidence (`compile_panic_sites_after_diagnostics`).
+fn compile_panic_sig(p: &Panic) -> String {
+    let s = p.sig();
+    let head = s.split(": ").next().unwrap_or("panic@?");
+    format!("compile-after-syntax-errors/{head}")
+}
+
+fn check_labels(
+    phase: &str,
+    text: &str,
+    own_path: &str,
+    errs: &[Box<dyn ReportableError>],
+    obs: &mut Obs,
+    out: &mut Out,
+) {
+    for e in errs {
+        let r = catch(|| (e.get_message(), e.get_labels()));
+        let (msg, labels) = match r {
+            Ok(x) => x,
+            Err(p) => {
+                obs.bad.push((panic_sig(&p), format!("panic in get_labels/get_message of a {phase} diagnostic: {} @ {}", p.msg, p.loc)));
+                continue;
+            }
+        };
+        out.count("diagnostics_checked", 1);
+        out.set("diagnostic_forms", format!("{phase}: {}", norm_msg(&msg)));
+        if labels.is_empty() {
+            out.count("diagnostics_without_label", 1);
+        }
+        for (loc, _m) in labels {
+            let lp = loc.path.to_string_lossy();
+            if !(lp.is_empty() || lp == own_path) {
+                out.count("labels_in_other_files_not_checked", 1);
+                continue;
+            }
+            out.count("labels_checked", 1);
+            let (s, t) = (loc.span.start, loc.span.end);
+            // class tag: the leading plain words of the message (no names from the input)
+            let class: String = norm_msg(&msg)
+                .split([':', ',', '.'])
+                .next()
+                .unwrap_or("")
+                .split_whitespace()
+                .take_while(|w| w.chars().all(|c| c.is_ascii_alphabetic() || c == '-'))
+                .take(6)
+                .collect::<Vec<_>>()
+                .join(" ");
+            let ctx = || {
+                format!(
+                    "{phase} diagnostic {msg:?} has label span {s}..{t} (label path {:?}), text length {} bytes",
+                    lp,
+                    text.len()
+                )
+            };
+            // narrow the class: the placeholder span 0..1 used when no location is known, and
+            // names of members of imported modules (mangled with `$`)
+            // narrower class tags, per clause: for a span outside the text whether the text
+            // imports other files (then the location most likely lies in an imported file and
+            // lost its path); for a split character whether it is the placeholder span 0..1
+            // that the front end uses when no location is known
+            let imports = pieces(text).iter().any(|p| matches!(*p, "use" | "include" | "mod"));
+            let outside_class = if imports { "label-without-path-in-text-with-imports".to_string() } else { class.clone() };
+            let boundary_class = if (s, t) == (0, 1) { format!("{class}/placeholder-span-0..1") } else { class.clone() };
+            if s > t {
+                obs.bad.push((format!("span-start-after-end/{class}"), ctx()));
+            } else if t > text.len() {
+                obs.bad.push((format!("span-outside-text/{outside_class}"), ctx()));
+            } else if !text.is_char_boundary(s) || !text.is_char_boundary(t) {
+                obs.bad.push((format!("span-not-on-char-boundary/{boundary_class}"), ctx()));
+            }
+            if s == 0 && t == 0 && !text.is_empty() {
+                out.count("labels_with_default_span", 1);
+            }
+        }
+    }
+}
+
+/// Run every monitored entry point on `text`.
+fn check_text(env: &mut Env, text: &str, path: &str, out: &mut Out) -> Obs {
+    let mut obs = Obs::default();
+    out.count("texts_checked", 1);
+    out.count("bytes_checked", text.len() as u64);
+    if !text.is_ascii() {
+        out.count("texts_non_ascii", 1);
+    }
+    let t0 = std::time::Instant::now();
+    env.ensure(path);
+
+    macro_rules! phase {
+        ($name:expr, $body:expr) => {{
+            sandbox::mark($name);
+            let tp = std::time::Instant::now();
+            let r = catch(|| $body);
+            out.count(&format!("us_in:{}", $name), tp.elapsed().as_micros() as u64);
+            match r {
+                Ok(v) => v,
+                Err(p) => {
+                    out.count(&format!("panics_in:{}", $name), 1);
+                    obs.bad.push((panic_sig(&p), format!("panic in {}: {} @ {}", $name, p.msg, p.loc)));
+                    env.ctxs.remove(path);
+                    return obs;
+                }
+            }
+        }};
+    }
+
+    // --- the language-server path, phase by phase
+    let tokens = phase!("tokenize", parser::tokenize(text));
+    out.count("tokens_seen", tokens.len() as u64);
+    for t in &tokens {
+        out.set("token_kinds_seen", format!("{:?}", t.kind));
+    }
+    let pre = phase!("preparse", parser::preparse(&tokens));
+    let (root, arena, _tokens2, cst_errs) = phase!("parse_cst", parser::parse_cst(tokens.clone(), &pre));
+    obs.tree_nonempty = arena.children(root).is_some_and(|c| !c.is_empty());
+    out.count("cst_errors_seen", cst_errs.len() as u64);
+
+    let (ast, module_info, parse_errs) = phase!("parse_to_expr", parser::parse_to_expr(text, Some(PathBuf::from(path))));
+    check_labels("parse", text, path, &parse_errs, &mut obs, out);
+    let n_parse = parse_errs.len();
+
+    let builtins = env.ctxs.get(path).map(|c| c.2.clone()).unwrap_or_default();
+    let type_errs = phase!("typecheck", {
+        let ast = if ast.has_staging_constructs() { ast.wrap_to_staged_expr() } else { ast };
+        let (_, _, errs) = mirgen::typecheck_with_module_info(ast, &builtins, None, module_info);
+        errs
+    });
+    check_labels("typecheck", text, path, &type_errs, &mut obs, out);
+    let n_type = type_errs.len();
+    obs.diagnostics = n_parse + n_type;
+    sandbox::DIAGS.store(obs.diagnostics, std::sync::atomic::Ordering::Relaxed);
+
+    // --- analyze_source as a whole (semantic tokens, signatures, LSP diagnostics)
+    let url = tower_lsp::lsp_types::Url::from_file_path(path)
+        .unwrap_or_else(|_| tower_lsp::lsp_types::Url::parse("file:///c04.mmm").unwrap());
+    let resp = phase!("analyze_source", mimium_language_server::analysis::analyze_source(text, url, &builtins));
+    out.count("lsp_diagnostics_seen", resp.diagnostics.len() as u64);
+    out.count("lsp_semantic_tokens_seen", resp.semantic_tokens.len() as u64);
+
+    match (n_parse > 0, n_type > 0) {
+        (false, false) => out.count("texts_without_diagnostics", 1),
+        (true, false) => out.count("texts_with_parse_errors_only", 1),
+        (false, true) => out.count("texts_with_type_errors_only", 1),
+        (true, true) => out.count("texts_with_parse_and_type_errors", 1),
+    }
+    if obs.tree_nonempty {
+        out.count("texts_with_nonempty_tree", 1);
+    }
+
+    // --- the on-save path: both compile entry points
+    for (backend, wasm) in [("emit_bytecode", false), ("emit_wasm", true)] {
+        mimium_lang::verif::configure(mimium_lang::verif::Config {
+            record_state: false,
+            assert_bounds: false,
+            step_budget: STAGE0_STEPS,
+        });
+        sandbox::mark(backend);
+        let tp = std::time::Instant::now();
+        let r = {
+            let Some(c) = env.ctxs.get(path) else { break };
+            let ctx = if wasm { &c.1 } else { &c.0 };
+            let comp = ctx.get_compiler().expect("compiler prepared");
+            catch(|| if wasm { comp.emit_wasm(text).map(|_| ()) } else { comp.emit_bytecode(text).map(|_| ()) })
+        };
+        mimium_lang::verif::disable();
+        out.count(&format!("us_in:{backend}"), tp.elapsed().as_micros() as u64);
+        match r {
+            Ok(Ok(())) => {
+                out.count(&format!("{backend}:accepted"), 1);
+                if obs.diagnostics > 0 {
+                    // accepted although the front end reported diagnostics: not a C04 matter
+                    out.count(&format!("{backend}:accepted_despite_front_end_diagnostics"), 1);
+                }
+            }
+            Ok(Err(errs)) => {
+                out.count(&format!("{backend}:answered_with_diagnostics"), 1);
+                if errs.is_empty() {
+                    out.count(&format!("{backend}:rejected_with_empty_list"), 1);
+                }
+                check_labels(backend, text, path, &errs, &mut obs, out);
+            }
+            Err(p) => {
+                env.ctxs.remove(path);
+                if p.is_verif_tag() == Some("VERIF-STEPS") {
+                    out.count(&format!("{backend}:stage0_step_budget_exhausted"), 1);
+                    if obs.diagnostics > 0 {
+                        out.inconclusive(0, &format!("stage-0 step budget exhausted in {backend} on a text with diagnostics"));
+                    }
+                } else if obs.diagnostics > 0 {
+                    out.count(&format!("panics_in:{backend}"), 1);
+                    out.set("compile_panic_sites_after_diagnostics", panic_sig(&p));
+                    obs.bad.push((
+                        compile_panic_sig(&p),
+                        format!(
+                            "panic in {backend} on a text with {n_parse} parse and {n_type} type diagnostics: {} @ {}",
+                            p.msg, p.loc
+                        ),
+                    ));
+                } else {
+                    // no syntax or type error: outside C04 (C03 looks at accepted programs)
+                    out.count(&format!("{backend}:panic_on_text_without_diagnostics_not_judged"), 1);
+                    out.set("panics_on_texts_without_diagnostics_not_judged", panic_sig(&p));
+                }
+            }
+        }
+    }
+    if t0.elapsed().as_millis() > 1000 {
+        out.count("texts_slower_than_1s", 1);
+    }
+    obs
+}
+
+fn one_case(origin: &str, path: &str, text: &str) -> Value {
+    serde_json::to_value(Case::One { origin: origin.into(), path: path.into(), text: text.into() }).unwrap()
+}
+
+fn truncate(s: &str, n: usize) -> String {
+    if s.len() <= n {
+        return s.to_string();
+    }
+    let mut k = n;
+    while !s.is_char_boundary(k) {
+        k -= 1;
+    }
+    format!("{}…", &s[..k])
+}
+
+fn case_texts(c: &Case, repo: &str) -> Option<(String, String, Vec<String>)> {
+    match c {
+        Case::Seq { alpha, len, first, count, joiner } => {
+            let a = alphabet(alpha)?;
+            let total = (a.len() as u64).checked_pow(*len as u32)?;
+            let texts = (*first..(*first + *count).min(total)).map(|i| seq_text(a, *len, i, joiner)).collect();
+            Some((format!("seq/{alpha}/len{len}/join{joiner:?}"), default_path(repo), texts))
+        }
+        Case::Texts { origin, path, texts } => Some((origin.clone(), path.clone(), texts.clone())),
+        Case::One { origin, path, text } => Some((origin.clone(), path.clone(), vec![text.clone()])),
+        Case::Margin { .. } => None,
+    }
+}
+
+// ------------------------------------------------------------------ the sandboxed child
+//
+// The worker process never runs repository code itself: every case is executed by a child
+// process (`mmv C04 --replay <case> --child <from> --status <file>`), element by element on
+// a 2 MiB thread. The child keeps "element index + phase" in a small status file (pwrite,
+// survives the process) and its SIGSEGV handler notes whether the fault address lies at the
+// guard page of that thread (= stack overflow). So a crash is pinned to one text and one
+// phase, gets a narrow signature, and the remaining elements of the batch still run.
+
+mod sandbox {
+    use std::sync::atomic::{AtomicI32, AtomicUsize, Ordering::Relaxed};
+    pub static STATUS_FD: AtomicI32 = AtomicI32::new(-1);
+    pub static STACK_LO: AtomicUsize = AtomicUsize::new(0);
+    pub static ELEM: AtomicUsize = AtomicUsize::new(0);
+    /// front-end diagnostics of the current element (usize::MAX = front end not finished)
+    pub static DIAGS: AtomicUsize = AtomicUsize::new(usize::MAX);
+
+    /// "k phase" at offset 0 (48 bytes, space padded)
+    pub fn mark(phase: &str) {
+        let fd = STATUS_FD.load(Relaxed);
+        if fd < 0 {
+            return;
+        }
+        let mut buf = [b' '; 48];
+        let d = DIAGS.load(Relaxed);
+        let s = if d == usize::MAX {
+            format!("{} {} -", ELEM.load(Relaxed), phase)
+        } else {
+            format!("{} {} {}", ELEM.load(Relaxed), phase, d)
+        };
+        let n = s.len().min(47);
+        buf[..n].copy_from_slice(&s.as_bytes()[..n]);
+        unsafe {
+            libc::pwrite(fd, buf.as_ptr() as *const libc::c_void, 48, 0);
+        }
+    }
+
+    extern "C" fn on_segv(_sig: libc::c_int, info: *mut libc::siginfo_t, _ctx: *mut libc::c_void) {
+        unsafe {
+            let addr = (*info).si_addr() as usize;
+            let lo = STACK_LO.load(Relaxed);
+            let near = lo != 0 && addr.wrapping_add(1 << 20) >= lo && addr < lo + (64 << 10);
+            let fd = STATUS_FD.load(Relaxed);
+            if fd >= 0 {
+                let msg: &[u8; 8] = if near { b"OVERFLOW" } else { b"SEGV    " };
+                libc::pwrite(fd, msg.as_ptr() as *const libc::c_void, 8, 48);
+            }
+            libc::signal(libc::SIGABRT, libc::SIG_DFL);
+            libc::abort();
+        }
+    }
+
+    /// Call on the worker thread of the child: remember its stack and take over SIGSEGV/SIGBUS.
+    pub fn arm(status_path: &str) {
+        unsafe {
+            let c = std::ffi::CString::new(status_path).unwrap();
+            let fd = libc::open(c.as_ptr(), libc::O_WRONLY | libc::O_CREAT, 0o600);
+            STATUS_FD.store(fd, Relaxed);
+            let mut attr: libc::pthread_attr_t = std::mem::zeroed();
+            if libc::pthread_getattr_np(libc::pthread_self(), &mut attr) == 0 {
+                let mut addr: *mut libc::c_void = std::ptr::null_mut();
+                let mut size: libc::size_t = 0;
+                if libc::pthread_attr_getstack(&attr, &mut addr, &mut size) == 0 {
+                    STACK_LO.store(addr as usize, Relaxed);
+                }
+                libc::pthread_attr_destroy(&mut attr);
+            }
+            let mut sa: libc::sigaction = std::mem::zeroed();
+            sa.sa_sigaction = on_segv as usize;
+            sa.sa_flags = libc::SA_SIGINFO | libc::SA_ONSTACK;
+            libc::sigemptyset(&mut sa.sa_mask);
+            libc::sigaction(libc::SIGSEGV, &sa, std::ptr::null_mut());
+            libc::sigaction(libc::SIGBUS, &sa, std::ptr::null_mut());
+        }
+    }
+}
+
+/// Child side: run the elements `from..` of a case in this process.
+fn child_main(args: &Args, out: &mut Out, c: &Case, from: usize) {
+    if let Some(st) = args.extra.get("status") {
+        sandbox::arm(st);
+    }
+    // a runaway loop must not take the machine down, and the child must not outlive its supervisor
+    unsafe {
+        let mib: u64 = args.extra.get("as-mib").and_then(|s| s.parse().ok()).unwrap_or(CHILD_AS_MIB);
+        let lim = libc::rlimit { rlim_cur: mib << 20, rlim_max: mib << 20 };
+        libc::setrlimit(libc::RLIMIT_AS, &lim);
+        let cpu = libc::rlimit { rlim_cur: 3600, rlim_max: 3600 };
+        libc::setrlimit(libc::RLIMIT_CPU, &cpu);
+        libc::prctl(libc::PR_SET_PDEATHSIG, libc::SIGKILL);
+    }
+    let mut env = Env::new(&args.repo);
+    let Some((origin, path, texts)) = case_texts(c, &env.repo) else { return };
+    for (k, t) in texts.iter().enumerate().skip(from) {
+        sandbox::ELEM.store(k, std::sync::atomic::Ordering::Relaxed);
+        sandbox::DIAGS.store(usize::MAX, std::sync::atomic::Ordering::Relaxed);
+        sandbox::mark("start");
+        out.emit(json!({"ev": "begin", "idx": k}));
+        let obs = check_text(&mut env, t, &path, out);
+        let mut seen: Vec<&String> = vec![];
+        for (sig, detail) in &obs.bad {
+            if seen.contains(&sig) {
+                continue;
+            }
+            seen.push(sig);
+            out.count(&format!("violations:{sig}"), 1);
+            out.emit(json!({"ev": "violation", "idx": k, "sig": sig, "detail": detail}));
+        }
+        out.end(k, "", obs.diagnostics > 0 || obs.tree_nonempty);
+        if (k + 1) % 64 == 0 {
+            // delta summary: what was observed so far survives a later crash
+            out.finish();
+            out.counters.clear();
+            out.sets.clear();
+        }
+        if k + 1 < texts.len() && rss_kib() > RECYCLE_RSS_KIB {
+            out.count("children_recycled_for_memory", 1);
+            sandbox::mark("recycle");
+            return;
+        }
+    }
+    out.set("origins", origin.split('#').next().unwrap_or("").to_string());
+    sandbox::mark("done");
+}
+
+fn rss_kib() -> u64 {
+    std::fs::read_to_string("/proc/self/statm")
+        .ok()
+        .and_then(|s| s.split_whitespace().nth(1).and_then(|x| x.parse::<u64>().ok()))
+        .map(|pages| pages * 4)
+        .unwrap_or(0)
+}
+
+// ------------------------------------------------------------------ the supervising side
+
+fn tmp_path(tag: &str) -> PathBuf {
+    use std::sync::atomic::{AtomicU64, Ordering};
+    static N: AtomicU64 = AtomicU64::new(0);
+    // the run directory of ./check (removed by the driver), else the system temp dir
+    let dir = std::env::current_dir().ok().filter(|d| d.join(".").exists() && d.to_string_lossy().contains("replays")).unwrap_or_else(std::env::temp_dir);
+    dir.join(format!("mmv-c04-{}-{}-{tag}", std::process::id(), N.fetch_add(1, Ordering::Relaxed)))
+}
+
+#[derive(Debug)]
+enum ChildEnd {
+    Ok,
+    Exit(i32),
+    Signal(String),
+    /// no progress on one element for the allowed time
+    Timeout,
+    SpawnFailed(String),
+}
+
+fn signal_name(s: i32) -> String {
+    match s {
+        4 => "SIGILL".into(),
+        6 => "SIGABRT".into(),
+        7 => "SIGBUS".into(),
+        9 => "SIGKILL".into(),
+        11 => "SIGSEGV".into(),
+        n => format!("SIG{n}"),
+    }
+}
+
+struct ChildRun {
+    events: Vec<Value>,
+    end: ChildEnd,
+    /// peak resident set of the child, KiB
+    maxrss_kib: i64,
+    /// (element, phase, fault flag) from the status file
+    status: Option<(usize, String, String)>,
+    /// front-end diagnostics of that element, if the front end had finished
+    diags: Option<usize>,
+}
+
+fn read_status_full(p: &Path) -> Option<((usize, String, String), Option<usize>)> {
+    let b = std::fs::read(p).ok()?;
+    let head = String::from_utf8_lossy(&b[..b.len().min(48)]).trim().to_string();
+    let flag = if b.len() >= 56 { String::from_utf8_lossy(&b[48..56]).trim().to_string() } else { String::new() };
+    let mut it = head.split(' ');
+    let k = it.next()?.parse().ok()?;
+    let phase = it.next().unwrap_or("").to_string();
+    let diags = it.next().and_then(|d| d.parse().ok());
+    Some(((k, phase, flag), diags))
+}
+fn read_status(p: &Path) -> Option<(usize, String, String)> {
+    read_status_full(p).map(|x| x.0)
+}
+
+/// Execute the elements `from..` of `case` in a child. `elem_timeout_s`: how long one element
+/// may stay in one phase. `beat` is called about once per second (keeps the supervisor's
+/// progress watchdog quiet while a slow element is being confirmed).
+fn run_child(
+    repo: &str,
+    tier: &str,
+    case: &Value,
+    from: usize,
+    stack_mib: usize,
+    as_mib: u64,
+    elem_timeout_s: u64,
+    beat: &mut dyn FnMut(),
+) -> ChildRun {
+    let cf = tmp_path("case.json");
+    let of = tmp_path("out.jsonl");
+    let sf = tmp_path("status");
+    let _ = std::fs::write(&cf, json!({ "case": case }).to_string());
+    let cleanup = |cf: &Path, of: &Path, sf: &Path| {
+        let _ = std::fs::remove_file(cf);
+        let _ = std::fs::remove_file(of);
+        let _ = std::fs::remove_file(sf);
+    };
+    let exe = match std::env::current_exe() {
+        Ok(e) => e,
+        Err(e) => return ChildRun { events: vec![], end: ChildEnd::SpawnFailed(e.to_string()), status: None, diags: None, maxrss_kib: 0 },
+    };
+    let child = std::process::Command::new(exe)
+        .args(["C04", "--replay", cf.to_str().unwrap(), "--out", of.to_str().unwrap(), "--repo", repo, "--tier", tier])
+        .args(["--child", &from.to_string(), "--status", sf.to_str().unwrap(), "--stack-mib", &stack_mib.to_string()])
+        .args(["--as-mib", &as_mib.to_string()])
+        .stdout(std::process::Stdio::null())
+        .stderr(std::process::Stdio::null())
+        .spawn();
+    let mut child = match child {
+        Ok(c) => c,
+        Err(e) => {
+            cleanup(&cf, &of, &sf);
+            return ChildRun { events: vec![], end: ChildEnd::SpawnFailed(e.to_string()), status: None, diags: None, maxrss_kib: 0 };
+        }
+    };
+    let pid = child.id() as libc::pid_t;
+    drop(child); // reaped below with wait4 (resource usage); std's handle is not used again
+    let mut maxrss_kib = 0i64;
+    // returns Some(end) once the child has been reaped
+    let mut reap = |block: bool| -> Option<ChildEnd> {
+        let mut st: libc::c_int = 0;
+        let mut ru: libc::rusage = unsafe { std::mem::zeroed() };
+        let r = unsafe { libc::wait4(pid, &mut st, if block { 0 } else { libc::WNOHANG }, &mut ru) };
+        if r == 0 {
+            return None;
+        }
+        if r < 0 {
+            return Some(ChildEnd::SpawnFailed("wait4 failed".into()));
+        }
+        maxrss_kib = ru.ru_maxrss;
+        if libc::WIFSIGNALED(st) {
+            Some(ChildEnd::Signal(signal_name(libc::WTERMSIG(st))))
+        } else if libc::WEXITSTATUS(st) == 0 {
+            Some(ChildEnd::Ok)
+        } else {
+            Some(ChildEnd::Exit(libc::WEXITSTATUS(st)))
+        }
+    };
+    let mut last_status: Option<(usize, String, String)> = None;
+    let mut last_change = std::time::Instant::now();
+    let mut last_look = std::time::Instant::now();
+    let mut sleep_us = 200;
+    let end = loop {
+        if let Some(e) = reap(false) {
+            break e;
+        }
+        if last_look.elapsed().as_millis() >= 1000 {
+            last_look = std::time::Instant::now();
+            beat();
+            let st = read_status(&sf);
+            if st != last_status {
+                last_status = st;
+                last_change = std::time::Instant::now();
+            } else if last_change.elapsed().as_secs() >= elem_timeout_s {
+                unsafe { libc::kill(pid, libc::SIGKILL) };
+                let _ = reap(true);
+                break ChildEnd::Timeout;
+            }
+        }
+        std::thread::sleep(std::time::Duration::from_micros(sleep_us));
+        sleep_us = (sleep_us * 2).min(5000);
+    };
+    let events: Vec<Value> = std::fs::read_to_string(&of)
+        .unwrap_or_default()
+        .lines()
+        .filter_map(|l| serde_json::from_str::<Value>(l).ok())
+        .collect();
+    let (status, diags) = match read_status_full(&sf) {
+        Some((st, d)) => (Some(st), d),
+        None => (None, None),
+    };
+    cleanup(&cf, &of, &sf);
+    ChildRun { events, end, status, diags, maxrss_kib }
+}
+
+/// Supervisor state of one worker process.
+struct Sup {
+    repo: String,
+    tier: String,
+    /// per signature: (events emitted, shortest witness so far)
+    reported: BTreeMap<String, (u64, usize)>,
+    confirmed_hangs: u32,
+    unconfirmed_timeouts: u32,
+}
+
+/// one text may stay in one phase this long inside its batch (then 4x alone)
+const ELEM_TIMEOUT_S: u64 = 30;
+const BIG_STACK_MIB: usize = 256;
+/// address-space limit of a child running a batch (MiB); the confirmation run gets twice that
+const CHILD_AS_MIB: u64 = 1536;
+/// a child that died (not at the stack guard) with at least this peak RSS is re-run alone with
+/// the doubled limit: dying again with a peak that grew with the limit = runaway allocation
+const RUNAWAY_RSS_KIB: i64 = 200 << 10;
+/// a child whose RSS exceeds this after an element hands the rest of the batch to a fresh
+/// process (the interner never frees)
+const RECYCLE_RSS_KIB: u64 = 400 << 10;
+/// confirmed hangs per worker process before timeouts are no longer confirmed
+const HANG_BUDGET: u32 = 2;
+/// unconfirmed timeouts per worker process before it gives up
+const TIMEOUT_BUDGET: u32 = 6;
+
+impl Sup {
+    fn report(&mut self, out: &mut Out, idx: usize, sig: &str, detail: &str, origin: &str, path: &str, text: &str) {
+        let e = self.reported.entry(sig.to_string()).or_insert((0, usize::MAX));
+        // keep the event stream small: the first few hits per signature and every hit that is
+        // shorter than all earlier ones
+        if e.0 < 4 || text.len() < e.1 {
+            e.0 += 1;
+            e.1 = e.1.min(text.len());
+            out.violation(idx, sig, &format!("{detail}; text={:?}", truncate(text, 400)), &one_case(origin, path, text));
+        }
+    }
+
+    fn merge(&mut self, out: &mut Out, idx: usize, evs: &[Value], origin: &str, path: &str, texts: &[String], nt: &mut bool) {
+        for e in evs {
+            match e.get("ev").and_then(|x| x.as_str()) {
+                Some("end") => {
+                    *nt |= e.get("nt").and_then(|x| x.as_bool()).unwrap_or(false);
+                }
+                Some("violation") => {
+                    let k = e.get("idx").and_then(|x| x.as_u64()).unwrap_or(0) as usize;
+                    let text = texts.get(k).map(|s| s.as_str()).unwrap_or("");
+                    self.report(
+                        out,
+                        idx,
+                        e.get("sig").and_then(|x| x.as_str()).unwrap_or("?"),
+                        e.get("detail").and_then(|x| x.as_str()).unwrap_or(""),
+                        origin,
+                        path,
+                        text,
+                    );
+                }
+                Some("inconclusive") => {
+                    out.inconclusive(idx, e.get("why").and_then(|x| x.as_str()).unwrap_or(""));
+                }
+                Some("summary") => {
+                    if let Some(c) = e.get("counters").and_then(|x| x.as_object()) {
+                        for (k, v) in c {
+                            out.count(k, v.as_u64().unwrap_or(0));
+                        }
+                    }
+                    if let Some(s) = e.get("sets").and_then(|x| x.as_object()) {
+                        for (k, v) in s {
+                            for x in v.as_array().into_iter().flatten() {
+                                if let Some(x) = x.as_str() {
+                                    out.set(k, x);
+                                }
+                            }
+                        }
+                    }
+                }
+                _ => {}
+            }
+        }
+    }
+
+    /// Execute one case in child processes; returns non-trivial?
+    fn exec(&mut self, c: &Case, case: &Value, idx: usize, out: &mut Out) -> bool {
+        if let Case::Margin { kind, wrapped } = c {
+            self.margin_probe(kind, *wrapped, out);
+            return false;
+        }
+        let Some((origin, path, texts)) = case_texts(c, &self.repo) else {
+            out.inconclusive(idx, "undecodable case");
+            return false;
+        };
+        let mut nt = false;
+        let mut from = 0;
+        while from < texts.len() {
+            let r = {
+                let mut beat_n = 0u64;
+                let mut beat = || {
+                    beat_n += 1;
+                    if beat_n % 15 == 0 {
+                        out.emit(json!({"ev": "note", "what": "waiting for a slow element"}));
+                    }
+                };
+                run_child(&self.repo, &self.tier, case, from, 2, CHILD_AS_MIB, ELEM_TIMEOUT_S, &mut beat)
+            };
+            self.merge(out, idx, &r.events, &origin, &path, &texts, &mut nt);
+            // which element was open when the child ended?
+            let open = r.status.as_ref().filter(|(_, ph, _)| ph != "done").map(|(k, ph, fl)| (*k, ph.clone(), fl.clone()));
+            match (&r.end, open) {
+                (ChildEnd::Ok, Some((k, phase, _))) if phase == "recycle" => {
+                    from = k + 1;
+                }
+                (ChildEnd::Ok, _) => break,
+                (ChildEnd::Signal(_), Some((k, phase, _))) | (ChildEnd::Timeout, Some((k, phase, _)))
+                    if k < texts.len() && phase.starts_with("emit_") && r.diags == Some(0) =>
+                {
+                    // the text has no syntax or type error: what its compilation does is not C04's business
+                    out.count(&format!("{phase}:died_or_hung_on_text_without_diagnostics_not_judged"), 1);
+                    out.set("crashes_on_texts_without_diagnostics_not_judged", format!("{phase}: {:?}", r.end));
+                    from = k + 1;
+                }
+                (ChildEnd::Signal(s0), Some((k, phase, flag))) if k < texts.len() => {
+                    // our SIGSEGV handler ends the process with abort(): name the original signal
+                    let s = &(if flag == "SEGV" { "SIGSEGV".to_string() } else { s0.clone() });
+                    out.emit(json!({"ev": "note", "what": "child died", "signal": s, "elem": k, "phase": phase}));
+                    let text = &texts[k];
+                    let one = one_case(&origin, &path, text);
+                    let (sig, detail) = if flag == "OVERFLOW" {
+                        // does it fit into a much larger stack?
+                        let r2 = run_child(&self.repo, &self.tier, &one, 0, BIG_STACK_MIB, CHILD_AS_MIB + BIG_STACK_MIB as u64, ELEM_TIMEOUT_S * 2, &mut || {});
+                        let tag = match (&r2.end, r2.status.as_ref().map(|s| s.2.as_str())) {
+                            (ChildEnd::Ok, _) => format!("fits-in-{BIG_STACK_MIB}MiB"),
+                            (ChildEnd::Signal(_), Some("OVERFLOW")) => "unbounded-recursion".to_string(),
+                            (ChildEnd::Timeout, _) => "unbounded-recursion".to_string(),
+                            _ => "other-failure-on-big-stack".to_string(),
+                        };
+                        (
+                            format!("stack-overflow/{phase}/{tag}"),
+                            format!("the 2 MiB stack overflowed in {phase} ({s}); with a {BIG_STACK_MIB} MiB stack: {:?}", r2.end),
+                        )
+                    } else if r.maxrss_kib >= RUNAWAY_RSS_KIB && s0 != "SIGKILL" {
+                        // possibly the address-space limit: run it alone with twice the limit; if it
+                        // dies again and its peak grew with the limit, the allocation is unbounded
+                        if self.confirmed_hangs >= HANG_BUDGET {
+                            self.unconfirmed_timeouts += 1;
+                            out.count("memory_deaths_not_confirmed_after_budget", 1);
+                            out.inconclusive(idx, &format!("element {k} died in {phase} with {} MiB resident; not confirmed (budget used), rest of the case skipped", r.maxrss_kib >> 10));
+                            break;
+                        }
+                        let r2 = run_child(&self.repo, &self.tier, &one, 0, 2, CHILD_AS_MIB * 2, ELEM_TIMEOUT_S * 4, &mut || {});
+                        let grew = r2.maxrss_kib >= r.maxrss_kib + r.maxrss_kib / 2;
+                        match (&r2.end, grew) {
+                            (ChildEnd::Signal(_), true) => {
+                                self.confirmed_hangs += 1;
+                                (
+                                    format!("runaway-allocation/{phase}"),
+                                    format!(
+                                        "memory grows without bound in {phase} on a text of {} bytes: the process died at the {} MiB address-space limit with {} MiB resident and again alone at {} MiB with {} MiB resident",
+                                        text.len(), CHILD_AS_MIB, r.maxrss_kib >> 10, CHILD_AS_MIB * 2, r2.maxrss_kib >> 10
+                                    ),
+                                )
+                            }
+                            (ChildEnd::Signal(s2), false) => (
+                                format!("crash:{s}/{phase}"),
+                                format!("process died with {s} in {phase} (not at the stack guard; {} MiB resident) and again alone with {s2}", r.maxrss_kib >> 10),
+                            ),
+                            (other, _) => {
+                                out.inconclusive(idx, &format!("element {k} died in the batch with {} MiB resident but ended with {other:?} alone", r.maxrss_kib >> 10));
+                                from = k + 1;
+                                continue;
+                            }
+                        }
+                    } else if s0 == "SIGKILL" {
+                        out.inconclusive(idx, &format!("child killed while on element {k} (OOM killer?)"));
+                        from = k + 1;
+                        continue;
+                    } else {
+                        (format!("crash:{s}/{phase}"), format!("process died with {s} in {phase} (not at the stack guard)"))
+                    };
+                    out.count(&format!("violations:{sig}"), 1);
+                    self.report(out, idx, &sig, &detail, &origin, &path, text);
+                    from = k + 1;
+                }
+                (ChildEnd::Timeout, Some((k, phase, _))) if k < texts.len() => {
+                    let text = &texts[k];
+                    if self.confirmed_hangs >= HANG_BUDGET {
+                        // hangs were already confirmed and reported by this worker: do not spend
+                        // 4x the time on every further one
+                        self.unconfirmed_timeouts += 1;
+                        out.count("timeouts_not_confirmed_after_hang_budget", 1);
+                        out.inconclusive(idx, &format!("element {k} gave no answer within {ELEM_TIMEOUT_S}s in {phase}; not confirmed (hang budget used), rest of the case skipped"));
+                        break;
+                    }
+                    // confirm alone with 4x the time before calling it a hang
+                    let one = one_case(&origin, &path, text);
+                    let r2 = {
+                        let mut beat_n = 0u64;
+                        let mut beat2 = || {
+                            beat_n += 1;
+                            if beat_n % 15 == 0 {
+                                out.emit(json!({"ev": "note", "what": "confirming a slow element alone"}));
+                            }
+                        };
+                        run_child(&self.repo, &self.tier, &one, 0, 2, CHILD_AS_MIB, ELEM_TIMEOUT_S * 4, &mut beat2)
+                    };
+                    match r2.end {
+                        ChildEnd::Timeout => {
+                            self.confirmed_hangs += 1;
+                            let ph2 = r2.status.map(|s| s.1).unwrap_or(phase);
+                            let sig = format!("hang/{ph2}");
+                            out.count(&format!("violations:{sig}"), 1);
+                            self.report(
+                                out,
+                                idx,
+                                &sig,
+                                &format!("stayed in {ph2} for {ELEM_TIMEOUT_S}s in the batch and again for {}s alone", ELEM_TIMEOUT_S * 4),
+                                &origin,
+                                &path,
+                                text,
+                            );
+                        }
+                        ChildEnd::Ok => {
+                            out.count("slow_elements_confirmed_alone", 1);
+                            let shifted: Vec<String> = vec![text.clone()];
+                            self.merge(out, idx, &r2.events, &origin, &path, &shifted, &mut nt);
+                        }
+                        other => {
+                            out.inconclusive(idx, &format!("element {k} timed out in the batch and ended with {other:?} alone"));
+                        }
+                    }
+                    from = k + 1;
+                }
+                (ChildEnd::Signal(s), _) if s == "SIGKILL" => {
+                    out.inconclusive(idx, "child killed (OOM?)");
+                    break;
+                }
+                (other, st) => {
+                    out.inconclusive(idx, &format!("child ended abnormally: {other:?}, status {st:?}"));
+                    break;
+                }
+            }
+        }
+        nt
+    }
+
+    /// How far beyond the stated bound does a ladder survive? Information only.
+    fn margin_probe(&mut self, kind: &str, wrapped: bool, out: &mut Out) {
+        let mut last_ok = NEST_BOUND;
+        let mut verdict = "survives 2048".to_string();
+        for d in [128usize, 256, 512, 1024, 2048] {
+            let Some(mut text) = ladder(kind, d) else { return };
+            if wrapped {
+                text = wrap_dsp(&text);
+            }
+            let case = one_case(&format!("margin/{kind}/{d}"), &default_path(&self.repo), &text);
+            let r = run_child(&self.repo, "quick", &case, 0, 2, CHILD_AS_MIB, 10, &mut || {});
+            out.count("margin_probes_run", 1);
+            match r.end {
+                ChildEnd::Ok => {
+                    if r.events.iter().any(|e| e.get("ev").and_then(|x| x.as_str()) == Some("violation")) {
+                        verdict = format!("reports a violation (no crash) at {d}");
+                        break;
+                    }
+                    last_ok = d;
+                }
+                ChildEnd::Signal(s) => {
+                    let (ph, fl) = r.status.map(|s| (s.1, s.2)).unwrap_or_default();
+                    verdict = format!("dies with {s} in {ph} {fl} at {d}");
+                    break;
+                }
+                ChildEnd::Timeout => {
+                    let ph = r.status.map(|s| s.1).unwrap_or_default();
+                    verdict = format!("no answer within 10s in {ph} at {d}");
+                    break;
+                }
+                other => {
+                    out.count("margin_probe_failed", 1);
+                    verdict = format!("probe failed: {other:?}");
+                    break;
+                }
+            }
+        }
+        out.set(
+            "nesting_margin_beyond_bound_64",
+            format!("{kind}{}: ok up to {last_ok}, {verdict}", if wrapped { " (in fn dsp)" } else { "" }),
+        );
+    }
+}
+
+
+// ------------------------------------------------------------------ plan
+
+struct Plan {
+    /// (alphabet, len, joiner, block size)
+    seqs: Vec<(&'static str, usize, &'static str, u64)>,
+    ladders: Vec<(String, usize, bool)>,
+    margins: Vec<(String, bool)>,
+    /// corpus prefixes/suffixes: estimated CPU budget per file (ms) and the minimal stride;
+    /// a file gets every `stride`-th cut with stride = max(min stride, cuts*cost/budget)
+    prefix_budget_ms: u64,
+    suffix_budget_ms: u64,
+    prefix_stride: usize,
+    suffix_stride: usize,
+    cut_batch: usize,
+    /// estimated CPU budget of one mutation case (ms): variants = budget/cost within 2..=variants
+    mutation_budget_ms: u64,
+    mutation_cases: usize,
+    unicode_cases: usize,
+    variants: usize,
+}
+
+fn plan(args: &Args) -> Plan {
+    let mut seqs: Vec<(&'static str, usize, &'static str, u64)> = vec![];
+    let th = args.thorough();
+    let joiners: &[&'static str] = &["", " ", "\n"];
+    let full_max = if th { 3 } else { 2 };
+    for len in 1..=full_max {
+        for j in joiners {
+            if len == 1 && !j.is_empty() {
+                continue;
+            }
+            seqs.push(("full", len, j, if th { 4096 } else { 512 }));
+        }
+    }
+    let (s14_max, s24_max) = if th { (5, 4) } else { (4, 3) };
+    for len in 3..=s14_max {
+        for j in [" ", "\n"] {
+            seqs.push(("s14", len, j, if th { 4096 } else { 1024 }));
+        }
+    }
+    for len in 3..=s24_max {
+        for j in [" ", "\n"] {
+            seqs.push(("s24", len, j, if th { 4096 } else { 1024 }));
+        }
+    }
+    let margins: Vec<(String, bool)> = LADDERS.iter().map(|(k, _)| (k.to_string(), false)).collect();
+    Plan {
+        seqs,
+        ladders: ladder_cases(),
+        margins,
+        prefix_budget_ms: if th { 25_000 } else { 2_000 },
+        suffix_budget_ms: if th { 10_000 } else { 800 },
+        prefix_stride: if th { 1 } else { 12 },
+        suffix_stride: if th { 2 } else { 48 },
+        cut_batch: if th { 64 } else { 24 },
+        mutation_cases: if th { 4_000 } else { 450 },
+        unicode_cases: if th { 1_000 } else { 150 },
+        variants: if th { 16 } else { 12 },
+        mutation_budget_ms: if th { 4_000 } else { 2_500 },
+    }
+}
+
+/// The deterministic list of "fixed" cases (everything except the random mutation cases).
+enum Slot {
+    Seq { alpha: &'static str, len: usize, joiner: &'static str, first: u64, count: u64 },
+    Ladder { kind: String, depth: usize, wrapped: bool },
+    Margin { kind: String, wrapped: bool },
+    /// file index, first char-boundary ordinal, count, stride, is_suffix
+    Cut { file: usize, first: usize, count: usize, stride: usize, suffix: bool },
+}
+
+fn slots(p: &Plan, corpus: &[CorpusFile], args: &Args) -> Vec<Slot> {
+    let mut v = vec![];
+    for (alpha, len, joiner, block) in &p.seqs {
+        let n = alphabet(alpha).unwrap().len() as u64;
+        let total = n.pow(*len as u32);
+        let mut first = 0;
+        while first < total {
+            let count = (*block).min(total - first);
+            v.push(Slot::Seq { alpha, len: *len, joiner, first, count });
+            first += count;
+        }
+    }
+    for (k, d, w) in &p.ladders {
+        v.push(Slot::Ladder { kind: k.clone(), depth: *d, wrapped: *w });
+    }
+    for (k, w) in &p.margins {
+        v.push(Slot::Margin { kind: k.clone(), wrapped: *w });
+    }
+    for (fi, f) in corpus.iter().enumerate() {
+        let nb = f.text.chars().count() + 1;
+        for (min_stride, budget, suffix) in
+            [(p.prefix_stride, p.prefix_budget_ms, false), (p.suffix_stride, p.suffix_budget_ms, true)]
+        {
+            // a cut costs at most a full pass over the file (most cost much less)
+            let stride = min_stride.max(((nb as u64 * f.cost_ms).div_ceil(budget)) as usize).min(nb.div_ceil(3).max(1));
+            // the offset within the stride depends on the seed, so that different seeds
+            // look at different cut points
+            let mut r = Rng::derive(args.seed, 0xC04, (fi * 2 + suffix as usize) as u64);
+            let off = r.below(stride);
+            let n_cuts = if nb > off { (nb - off).div_ceil(stride) } else { 0 };
+            let mut first = 0;
+            while first < n_cuts {
+                let count = p.cut_batch.min(n_cuts - first);
+                v.push(Slot::Cut { file: fi, first: off + first * stride, count, stride, suffix });
+                first += count;
+            }
+        }
+    }
+    v
+}
+
+fn slot_case(s: &Slot, corpus: &[CorpusFile], repo: &str) -> Case {
+    match s {
+        Slot::Seq { alpha, len, joiner, first, count } => {
+            Case::Seq { alpha: alpha.to_string(), len: *len, first: *first, count: *count, joiner: joiner.to_string() }
+        }
+        Slot::Ladder { kind, depth, wrapped } => {
+            let mut text = ladder(kind, *depth).unwrap_or_default();
+            if *wrapped {
+                text = wrap_dsp(&text);
+            }
+            Case::One {
+                origin: format!("ladder/{kind}{}#{depth}", if *wrapped { "/in-dsp" } else { "" }),
+                path: default_path(repo),
+                text,
+            }
+        }
+        Slot::Margin { kind, wrapped } => Case::Margin { kind: kind.clone(), wrapped: *wrapped },
+        Slot::Cut { file, first, count, stride, suffix } => {
+            let f = &corpus[*file];
+            let bounds: Vec<usize> = f.text.char_indices().map(|(i, _)| i).chain(std::iter::once(f.text.len())).collect();
+            let texts = (0..*count)
+                .filter_map(|k| bounds.get(first + k * stride))
+                .map(|b| if *suffix { f.text[*b..].to_string() } else { f.text[..*b].to_string() })
+                .collect();
+            Case::Texts {
+                origin: format!("{}/{}#{}", if *suffix { "suffix" } else { "prefix" }, f.rel, first),
+                path: f.vpath.clone(),
+                texts,
+            }
+        }
+    }
+}
+
+fn mutation_case(rng: &mut Rng, corpus: &[CorpusFile], variants: usize, budget_ms: u64, unicode: bool) -> Option<Case> {
+    if corpus.is_empty() {
+        return None;
+    }
+    let f = rng.pick(corpus);
+    let variants = ((budget_ms / f.cost_ms.max(1)) as usize).clamp(2, variants);
+    let base: Vec<String> = pieces(&f.text).into_iter().map(String::from).collect();
+    let mut texts = vec![];
+    let mut tags = vec![];
+    for _ in 0..variants {
+        if unicode {
+            let (mut t, tag) = unicode_splice(rng, &f.text);
+            // sometimes combine with a token mutation
+            if rng.chance(1, 4) {
+                let mut ps: Vec<String> = pieces(&t).into_iter().map(String::from).collect();
+                mutate_tokens(rng, &mut ps);
+                t = ps.concat();
+            }
+            tags.push(tag);
+            texts.push(t);
+        } else {
+            let mut ps = base.clone();
+            let k = 1 + rng.below(4);
+            for _ in 0..k {
+                tags.push(mutate_tokens(rng, &mut ps));
+            }
+            texts.push(ps.concat());
+        }
+    }
+    tags.sort();
+    tags.dedup();
+    Some(Case::Texts {
+        origin: format!("{}/{}#{}", if unicode { "unicode" } else { "mutation" }, f.rel, tags.join("+")),
+        path: f.vpath.clone(),
+        texts,
+    })
+}
+
+// ------------------------------------------------------------------ entry points
+
+/// Run `f` on a thread with the given stack size; `Out` is only touched by that thread while
+/// the caller waits.
+fn on_stack(stack: usize, out: &mut Out, f: impl FnOnce(&mut Out)) {
+    struct P(*mut Out);
+    unsafe impl Send for P {}
+    struct F<T>(T);
+    unsafe impl<T> Send for F<T> {}
+    let p = P(out as *mut Out);
+    let f = F(f);
+    std::thread::scope(|s| {
+        let h = std::thread::Builder::new()
+            .stack_size(stack)
+            .spawn_scoped(s, move || {
+                let p = p;
+                let f = f;
+                let out = unsafe { &mut *p.0 };
+                (f.0)(out)
+            })
+            .expect("spawn");
+        if h.join().is_err() {
+            panic!("C04 worker thread panicked (harness error)");
+        }
+    });
+}
+
+pub fn meta(args: &Args) -> Value {
+    let p = plan(args);
+    let th = args.thorough();
+    json!({
+        "level": "exploration",
+        "rule": format!(
+            "Every text goes through tokenize, preparse, parse_cst, parse_to_expr, typecheck_with_module_info, analyze_source, emit_bytecode and emit_wasm on a thread with a 2 MiB stack in a child process (a crash is pinned to one text and phase; the stack-overflow class is decided by a second run with a 256 MiB stack). Cases: (a) exhaustive lexeme sequences — all sequences of length <= {} over the full alphabet of {} lexemes (every TokenKind the tokenizer emits, trivia, error characters, unterminated openers, non-ASCII) joined by \"\", \" \" and \"\\n\"; all sequences of length 3..{} over 14 structural tokens and of length 3..{} over 24 structural tokens joined by \" \" and \"\\n\"; one case = one block of the enumeration; (b) char-boundary prefixes (\"typing the file\") and suffixes of each corpus file (lib, examples, mimium-test mmm, mimium-fmt tests): every {} prefix and every {} suffix, coarser for the files whose imports make one pass expensive (estimated budget {} / {} CPU-ms per file; offset within the stride derived from the seed), {} cuts per case; (c) {} cases of up to {} token-level mutations/bracket scrambles of a random corpus file; (d) {} cases of Unicode splices (multi-byte, combining, RTL, NUL, BOM, CR/CRLF, non-ASCII identifiers); (e) {} nesting ladders ({} construct kinds, bare and inside fn dsp, depths 1..64 = the stated bound), one case each; plus informational margin probes beyond the bound. A case is non-trivial if for at least one of its texts the front end produced >= 1 diagnostic or a non-empty syntax tree; distinctness = hash of the case (block coordinates or the texts themselves).",
+            if th { 3 } else { 2 }, FULL.len(), if th { 5 } else { 4 }, if th { 4 } else { 3 },
+            ordinal(p.prefix_stride), ordinal(p.suffix_stride), p.prefix_budget_ms, p.suffix_budget_ms, p.cut_batch,
+            p.mutation_cases, p.variants, p.unicode_cases, p.ladders.len(), LADDERS.len()),
+        "assumptions": [
+            "the compiler contexts are built by ExecContext with the scheduler system plugin (VM context additionally with the audio-driver plugin); MIDI, sampler and GUI plugins of the CLI/language server are not loaded, so their builtin names are unknown identifiers here",
+            "a text 'has syntax or type errors' iff parse_to_expr or typecheck_with_module_info returned at least one diagnostic; panics of emit_bytecode/emit_wasm on texts without diagnostics are counted but not judged (C03)",
+            "label spans are byte ranges; a label whose path is empty or the text's own path refers to the text (the convention of utils::error::report and of the language server); labels in other files are not checked",
+            "the stated nesting bound is 64 levels on a 2 MiB stack; deeper nesting is probed for information only",
+            "include()/use resolve against the repository's lib/ directory (texts are 'saved' as a virtual sibling of their corpus file); stage-0 macro execution is cut off after 2e7 VM instructions (counted, not judged, unless the text has diagnostics: inconclusive)",
+            "'never loops forever' is observed as: one text stays in one phase for 30 s inside its batch and again for 120 s when run alone; unbounded allocation as: the child dies at a 1.5 GiB address-space limit and again, with a peak that grew by >= 50%, at 3 GiB; after two confirmed hangs/runaways a worker stops confirming and after six more gives up (reported as inconclusive cases; the run is already failing then)"
+        ],
+        "floor": {"quick": 400, "thorough": 4000},
+        "exhaustive": true,
+        "case_timeout_s": 120,
+        "hang_is_violation": true,
+    })
+}
+
+fn ordinal(n: usize) -> String {
+    match n {
+        1 => "single".into(),
+        2 => "2nd".into(),
+        3 => "3rd".into(),
+        n => format!("{n}th"),
+    }
+}
+
+pub fn run(args: &Args, out: &mut Out) {
+    let p = plan(args);
+    let corpus = load_corpus(&args.repo);
+    if corpus.len() < 50 {
+        out.inconclusive(0, &format!("corpus not found under {} ({} files)", args.repo, corpus.len()));
+    }
+    out.count("corpus_files", if args.shard == 0 { corpus.len() as u64 } else { 0 });
+    let sl = slots(&p, &corpus, args);
+    let fixed = sl.len();
+    let total_all = fixed + p.mutation_cases + p.unicode_cases;
+    let total = args.budget.map(|b| b.min(total_all)).unwrap_or(total_all);
+    if args.shard == 0 {
+        let every = sl
+            .iter()
+            .filter(|s| matches!(s, Slot::Cut { stride: 1, suffix: false, first: 0, .. }))
+            .count();
+        out.count("files_with_every_prefix", every as u64);
+    }
+    let mut sup = Sup { repo: args.repo.clone(), tier: args.tier.clone(), reported: BTreeMap::new(), confirmed_hangs: 0, unconfirmed_timeouts: 0 };
+    out.max_samples = 1;
+    let repo = args.repo.clone();
+    let variants = p.variants;
+    let mb = p.mutation_budget_ms;
+    let (mc, uc) = (p.mutation_cases, p.unicode_cases);
+    drive(
+        args,
+        out,
+        total,
+        |idx, rng| {
+            if idx < fixed {
+                Some(slot_case(&sl[idx], &corpus, &repo))
+            } else if idx < fixed + mc {
+                mutation_case(rng, &corpus, variants, mb, false)
+            } else if idx < fixed + mc + uc {
+                mutation_case(rng, &corpus, variants, mb, true)
+            } else {
+                None
+            }
+        },
+        |c, idx, out| {
+            if sup.unconfirmed_timeouts >= TIMEOUT_BUDGET {
+                // hangs are confirmed and reported; going on would only burn the time budget
+                out.inconclusive(idx, "case skipped: this worker stopped after repeated timeouts");
+                return false;
+            }
+            let j = serde_json::to_value(c).unwrap();
+            sup.exec(c, &j, idx, out)
+        },
+    );
+}
+
+pub fn replay(args: &Args, out: &mut Out, case: &Value) {
+    let c: Case = match serde_json::from_value(case.clone()) {
+        Ok(c) => c,
+        Err(e) => {
+            out.inconclusive(0, &format!("cannot decode replay case: {e}"));
+            return;
+        }
+    };
+    // child mode: execute elements in this process, on a thread of the requested stack size
+    if let Some(from) = args.extra.get("child") {
+        let from: usize = from.parse().unwrap_or(0);
+        let mib: usize = args.extra.get("stack-mib").and_then(|s| s.parse().ok()).unwrap_or(2);
+        let args = args.clone();
+        on_stack(mib * 1024 * 1024, out, move |out| child_main(&args, out, &c, from));
+        return;
+    }
+    let mut sup = Sup { repo: args.repo.clone(), tier: args.tier.clone(), reported: BTreeMap::new(), confirmed_hangs: 0, unconfirmed_timeouts: 0 };
+    if let Some(dest) = args.extra.get("minimize") {
+        minimize(&mut sup, &c, dest, out);
+        return;
+    }
+    out.begin(0, case);
+    let nt = sup.exec(&c, case, 0, out);
+    out.end(0, &fp(&case.to_string()), nt);
+}
+
+// ------------------------------------------------------------------ witness minimiser (tool)
+
+/// `mmv C04 --replay <case> --minimize <out.json>` (optionally `C04_SIG=<sig>`): shrink the
+/// first element of the case that shows a violation while that signature stays; every probe
+/// runs in a child, so crashes can be minimised too.
+fn minimize(sup: &mut Sup, c: &Case, dest: &str, out: &mut Out) {
+    let Some((origin, path, texts)) = case_texts(c, &sup.repo) else { return };
+    let want = std::env::var("C04_SIG").ok();
+    let mut sigs_of = |sup: &mut Sup, t: &str| -> Vec<String> {
+        let one = one_case(&origin, &path, t);
+        let oc: Case = serde_json::from_value(one.clone()).unwrap();
+        let mut tmp = Out::new(Some("/dev/null"));
+        sup.reported.clear();
+        sup.exec(&oc, &one, 0, &mut tmp);
+        tmp.counters.keys().filter_map(|k| k.strip_prefix("violations:")).map(String::from).collect()
+    };
+    let mut target: Option<(String, String)> = None;
+    for t in &texts {
+        let sigs = sigs_of(sup, t);
+        if let Some(s) = sigs.iter().find(|s| want.as_ref().is_none_or(|w| w == *s)) {
+            target = Some((s.clone(), t.clone()));
+            break;
+        }
+    }
+    let Some((sig, mut cur)) = target else {
+        out.inconclusive(0, "nothing to minimise: no (matching) violation on replay");
+        return;
+    };
+    let mut fails = |sup: &mut Sup, t: &str| sigs_of(sup, t).iter().any(|s| *s == sig);
+    for by_chars in [false, true, false, true] {
+        let mut units: Vec<String> = if by_chars {
+            if cur.chars().count() > 400 {
+                continue;
+            }
+            cur.chars().map(|c| c.to_string()).collect()
+        } else {
+            pieces(&cur).into_iter().map(String::from).collect()
+        };
+        let mut chunk = units.len().div_ceil(2).max(1);
+        loop {
+            let mut i = 0;
+            let mut progressed = false;
+            while i < units.len() {
+                let end = (i + chunk).min(units.len());
+                let cand: String = units[..i].iter().chain(units[end..].iter()).cloned().collect();
+                if fails(sup, &cand) {
+                    units.drain(i..end);
+                    progressed = true;
+                } else {
+                    i = end;
+                }
+            }
+            if chunk == 1 && !progressed {
+                break;
+            }
+            if !progressed {
+                chunk = (chunk / 2).max(1);
+            }
+        }
+        cur = units.concat();
+    }
+    let w = json!({"property": "C04", "sig": sig, "case": one_case(&format!("minimised/{origin}"), &path, &cur)});
+    let _ = std::fs::write(dest, serde_json::to_string_pretty(&w).unwrap() + "\n");
+    out.emit(json!({"ev": "minimised", "sig": sig, "text": cur}));
+}
